@@ -451,15 +451,38 @@ fn check_sets(m: &BTreeMap<H, Vec<u8>>, shuffle_seed: u64, step: usize, ctx: &mu
     let want = rf::root(m);
     let mut items: Vec<(H, Vec<u8>)> = m.iter().map(|(k, v)| (*k, v.clone())).collect();
     let mut r = Rng::new(shuffle_seed ^ step as u64);
-    // duplicates carry the same value, so "last wins" cannot change the map
-    let dups = r.below(3) as usize;
-    for _ in 0..dups {
-        if !items.is_empty() {
-            let it = items[r.usize_below(items.len())].clone();
-            items.push(it);
+    if r.below(3) == 0 && !items.is_empty() {
+        // from_set is documented as equivalent to sequential updates, so the last pair of a key
+        // wins: 1..60 stale pairs (other non-empty values) precede the final pair of their key,
+        // in a random interleaving that keeps the per-key order.
+        let mut queues: Vec<Vec<(H, Vec<u8>)>> = items.iter().map(|it| vec![it.clone()]).collect();
+        for _ in 0..r.range(1, 60) {
+            let q = r.usize_below(queues.len());
+            let key = queues[q][0].0;
+            let mut v = vec![0xA5u8; 1 + r.usize_below(40)];
+            v[0] = r.below(256) as u8;
+            queues[q].insert(0, (key, v));
         }
+        items.clear();
+        while !queues.is_empty() {
+            let q = r.usize_below(queues.len());
+            items.push(queues[q].remove(0));
+            if queues[q].is_empty() {
+                queues.swap_remove(q);
+            }
+        }
+        ctx.stats.inc("probe.smt_set_with_stale_pairs");
+    } else {
+        // duplicates carry the same value, so "last wins" cannot change the map
+        let dups = r.below(3) as usize;
+        for _ in 0..dups {
+            if !items.is_empty() {
+                let it = items[r.usize_below(items.len())].clone();
+                items.push(it);
+            }
+        }
+        r.shuffle(&mut items);
     }
-    r.shuffle(&mut items);
     let set = || items.iter().map(|(k, v)| (mk(k), v.clone()));
     let t = in_memory::MerkleTree::from_set(set());
     if t.root() != want {
